@@ -67,7 +67,7 @@ MUTANTS = {
     },
     "c07_large_union_ancestor_first_two": {
         "props": ["C07"],
-        "edits": [(T, "issubclass(t, ancestor) for t in union.__args__\n", "issubclass(t, ancestor) for t in union.__args__[:3]\n")],
+        "edits": [(T, "                and all(issubclass(t, ancestor) for t in union.__args__)", "                and all(issubclass(t, ancestor) for t in union.__args__[:3])")],
     },
     "c08_no_sort_keys": {
         "props": ["C08"],
@@ -172,7 +172,7 @@ MUTANTS = {
     },
     "c02_skip_property_setter_check": {
         "props": ["C02"],
-        "edits": [(TR, "    elif isinstance(val, property) and (val.fset is None) and (val.fdel is None):\n        cand = cast(Callable[..., Any], val.fget)", "    elif isinstance(val, property) and (val.fset is not None):\n        cand = cast(Callable[..., Any], val.fget)")],
+        "edits": [(TR, "    elif issubclass(typ, property) and (val.fset is None) and (val.fdel is None):", "    elif issubclass(typ, property) and (val.fset is not None):")],
     },
     "c18_inverted": {
         "props": ["C18"],
@@ -279,13 +279,9 @@ MUTANTS = {
         "props": ["C11"],
         "edits": [(ST, '        rendered = rendered.replace("NoneType", "None")\n', '')],
     },
-    "c11_io_rename_dropped": {
-        "props": ["C11"],
-        "edits": [(ST, '            if module == "_io":\n                module = module[1:]\n', '')],
-    },
     "c11_typing_stripped_everywhere": {
         "props": ["C11"],
-        "edits": [(ST, '        if getattr(typ, "__module__", None) == "typing":\n            rendered = rendered.replace("typing.", "")', '        rendered = rendered.replace("typing.", "")')],
+        "edits": [(ST, '            rendered = re.sub(r"(?<![\\w.])typing\\.", "", rendered)', '            rendered = rendered.replace("typing.", "")')],
     },
     "c11_substring_regress": {
         "props": ["C11"],
